@@ -469,6 +469,7 @@ func checkC14(c *Ctx, e *Env) {
 		c.Check(ok, "C14.SEP", "parser:"+fnName, p.Pos(fn.Pos()), fmt.Sprintf("parser compares runes with '-' (and the dash ordinal 2 for project ids): constants %v", consts))
 	}
 	nDim := ruleKeyDims(c, m, "C14.KEYDIM", func(pkg string) bool { return strings.Contains(pkg, "/keeper") })
+	nDim += ruleMapArgDims(c, m, "C14.KEYDIM", func(*ssa.Function) bool { return true })
 	c.Count("key_dimension_sites", nDim)
 	c.Min("key-dimension sites in keepers", 40, nDim)
 	ruleSequences(c, p, r)
